@@ -727,9 +727,14 @@ impl Transaction {
             });
         }
 
-        self.propagate_governance().await?;
-        self.check_reference_closure().await?;
-        self.check_concept_key_identity().await?;
+        // A refusal found here happens before the first write, so the only
+        // durable thing this statement produced is its `pending` shells. They
+        // are removed like on any other refusal (see `abort`): a state-
+        // constrained query would otherwise observe them.
+        if let Err(err) = self.check_before_write().await {
+            self.discard_shells().await;
+            return Err(err);
+        }
 
         // Nothing this transaction touched keeps its shell state, and the
         // version rule is applied here so that a clause touching one element
@@ -813,6 +818,13 @@ impl Transaction {
             changes,
             warnings: self.warnings,
         })
+    }
+
+    /// The commit-time checks that run before anything is written.
+    async fn check_before_write(&mut self) -> Result<(), KipError> {
+        self.propagate_governance().await?;
+        self.check_reference_closure().await?;
+        self.check_concept_key_identity().await
     }
 
     /// Abandons everything staged, removing the shells this run minted.
